@@ -134,15 +134,6 @@ Proof.
 Qed.
 
 (* ---------- well-formedness of the input, as a boolean one can evaluate *)
-Definition lo_okb (x : xq) : bool := match x with Fin _ | NInf => true | _ => false end.
-Definition hi_okb (x : xq) : bool := match x with Fin _ | PInf => true | _ => false end.
-Definition dom_okb (dom : list (string * vtype)) : bool :=
-  forallb (fun p => match snd p with TReal a b => lo_okb a && hi_okb b | TNonNegativeReal a b => xq_is_finite a && hi_okb b | _ => true end) dom.
-Definition coeffs_okb (n : nat) (cs : list xq) : bool := Nat.eqb (List.length cs) n && forallb xq_is_finite cs.
-Definition lin_okb (L : linmodel) : bool :=
-  forallb (fun r => coeffs_okb (List.length (lm_vars L)) (lr_coeffs r) && xq_is_finite (lr_rhs r)) (lm_rows L)
-  && coeffs_okb (List.length (lm_vars L)) (lm_objective L) && dom_okb (lm_domain L).
-
 Lemma coeffs_okb_spec n cs : coeffs_okb n cs = true -> List.length cs = n /\ Forall finx cs.
 Proof.
   unfold coeffs_okb. intros H. apply andb_true_iff in H as [H1 H2]. apply Nat.eqb_eq in H1. split; [exact H1|].
